@@ -140,6 +140,8 @@ def run(ctx, res):
                            violation=None if good else dict(rule='C10.recall-pure', key="C10|recall-pure|%s" % nav,
                                                             msg="History::%s modifies the stored entries" % nav))
     check_space_accounting(ctx, res)
+    check_push_content(ctx, res)
+    check_recall_content(ctx, res)
     res.exhaustive = True
 
 
@@ -207,5 +209,252 @@ def check_space_accounting(ctx, res):
                 msg="%s at %s compares the submitted line with a piece of the history buffer whose start is %s, i.e. not the start of a "
                     "stored entry (0 or the byte after a NUL found by search): a line could be taken for a duplicate of part of another"
                     % (fnp, span, tag.split('^')[-1])))
+    finally:
+        absint.WIDEN_AT = old
+
+
+def check_push_content(ctx, res):
+    """H6: the effect of `push` on the *content* of the history buffer, for every content, capacity and line (segment
+    algebra over the linear domain, rules/content.py).  At every exit the bytes in use are, in this order: stored bytes
+    in their old relative order, then the submitted line, then one NUL; what was dropped from the stored bytes is
+    (i) at most one range of exactly len + 1 bytes starting at an entry start (the older copy of the line) and
+    (ii) at most one *prefix* (the oldest entries) that ends just after the first NUL at or beyond the number of bytes
+    that have to be freed (whole entries, and no more than necessary) - or everything when nothing less suffices;
+    nothing is dropped from the newest end.  An exit that writes nothing leaves `used` as it was."""
+    from .. import absint, fm
+    from . import C03, content
+    from .content import ZERO, Undecided
+    lib = lib_crate(ctx.crates('default'))
+    if not session.methods_of(lib, 'history::History'):
+        return
+    old = absint.WIDEN_AT
+    absint.WIDEN_AT = 16
+    try:
+        rule = content.ContentE3(lib)
+        inv, keymap = C03.inventory(lib)
+        rule.keymap = keymap
+        f = [x for x in session.methods_of(lib, 'history::History') if x.name == 'push'][0]
+        used0, cap = fm.lin_atom('used0'), fm.lin_atom('cap(H)')
+        one = fm.lin_const(1)
+        n = 0
+        nwrite = 0
+        for label, selfv, facts in C03.history_entries(Interp([lib], rule)):
+            I = Interp([lib], rule, max_worlds=60000)
+            rule.ctx = 'push ' + label
+            args, _ = C03.sym_args(rule, f, ('ref', (-1, 0, ())))
+            exits = I.run(f, args, facts, {(-1, 0): selfv})
+            ui = I.field_index('history::History', 'used')
+            tl = C03.L(args[1][2])
+            tname = content.base_of(args[1][1])
+            for w0, rv in exits:
+                n += 1
+                u = C03.L(w0.store[(-1, 0)][3][ui])
+                fx = [e for e in content.effects_of(w0) if e[1] == 'H']
+                poss = content.markers(w0, 'pos')
+
+                def ob(clause, good, msg):
+                    res.oblige("H6|%s|%s|%d" % (clause, msg[:50], n), good, sample="push content: " + clause,
+                               violation=None if good else dict(rule='C10.content', key="C10|content|%s" % clause,
+                                                                msg="history::History::push: " + msg))
+                if u is None:
+                    ob('used-linear', False, "`used` is not a linear quantity at an exit")
+                    continue
+                if not fx:
+                    good = rule.prove(w0, fm.le(u, used0)) and rule.prove(w0, fm.le(used0, u))
+                    ob('no-write-no-change', good, "an exit that writes nothing into the buffer changes `used`")
+                    continue
+                nwrite += 1
+
+                def body(w, u=u, poss=poss, ob=ob):
+                    def le(a, b):
+                        return rule.prove(w, fm.le(a, b))
+
+                    def eq(a, b):
+                        return a == b or (le(a, b) and le(b, a))
+
+                    def entry_start(x):
+                        if eq(x, ZERO):
+                            return True
+                        items = dict(x[0])
+                        if len(items) == 1 and x[1] == 0 and list(items.values()) == [1]:
+                            a = list(items)[0]
+                            if a == 'hc0' or ('@loop' in a and 'cursor' in a):
+                                return True         # the navigation cursor: an entry start by the inductive field invariant
+                        for (at, base, off, ln, byte, rev) in poss:
+                            if base != 'H' or byte != 0:
+                                continue
+                            nul = fm.add(fm.add(off, ln), fm.add(fm.lin_atom(at), one), -1) if rev else fm.add(off, fm.lin_atom(at))
+                            if eq(x, fm.add(nul, one)):
+                                return True
+                        return False
+                    c = content.replay(rule, w, 'H', cap)
+                    segs = c.normalised(c.prefix(u))
+                    if len(segs) < 2 or segs[-1][2] != ('byte', 0) or segs[-2][2][0] != 'text':
+                        ob('ends-with-line', False, "the bytes in use do not end with the submitted line and a NUL: " + content.fmt_segs(segs))
+                        return
+                    (ta, tb, tsrc), (za, zb, _) = segs[-2], segs[-1]
+                    good = tsrc[1] == tname and eq(fm.add(tb, ta, -1), tl) and eq(tsrc[2], fm.add(ZERO, ta, -1)) \
+                        and eq(za, tb) and eq(zb, fm.add(tb, one)) and eq(zb, u)
+                    ob('ends-with-line', good, "the bytes in use do not end with exactly the submitted line and one NUL: " + content.fmt_segs(segs))
+                    olds = segs[:-2]
+                    if any(s_[2][0] != 'old' for s_ in olds):
+                        ob('kept-are-old', False, "bytes of unknown origin precede the new entry: " + content.fmt_segs(segs))
+                        return
+                    # kept source ranges, in destination order
+                    src = [(fm.add(a, s_[1]), fm.add(b, s_[1])) for (a, b, s_) in olds]
+                    okc = (not olds) or eq(olds[0][0], ZERO)
+                    for k in range(len(olds) - 1):
+                        okc = okc and eq(olds[k][1], olds[k + 1][0])
+                    okc = okc and ((not olds and eq(ta, ZERO)) or (olds and eq(olds[-1][1], ta)))
+                    ob('contiguous', bool(okc), "the kept entries and the new entry are not laid out contiguously from offset 0: " + content.fmt_segs(segs))
+                    order = all(le(src[k][1], src[k + 1][0]) for k in range(len(src) - 1))
+                    ob('order-kept', order, "stored bytes are reordered: " + content.fmt_segs(segs))
+                    if not order:
+                        return
+                    gaps = []
+                    if src:
+                        if not eq(src[0][0], ZERO):
+                            gaps.append(('prefix', ZERO, src[0][0]))
+                        for k in range(len(src) - 1):
+                            if not eq(src[k][1], src[k + 1][0]):
+                                gaps.append(('middle', src[k][1], src[k + 1][0]))
+                        ob('newest-kept', eq(src[-1][1], used0), "the newest stored bytes are dropped (kept sources end at %s, not at `used`)" % content.fmt(src[-1][1]))
+                    # dedupe gaps
+                    dd = [g for g in gaps if g[0] == 'middle']
+                    pf = [g for g in gaps if g[0] == 'prefix']
+                    # a removed older copy may also be the first entry: then it is a prefix gap of len + 1 starting at 0
+                    used_mid = used0
+                    for g in list(dd):
+                        good = eq(fm.add(g[2], g[1], -1), fm.add(tl, one)) and entry_start(g[1])
+                        ob('dedupe-whole-entry', good, "a range dropped from the middle of the stored bytes [%s, %s) is not len + 1 bytes "
+                           "starting at an entry start" % (content.fmt(g[1]), content.fmt(g[2])))
+                        used_mid = fm.add(used_mid, fm.add(tl, one), -1)
+                    ob('one-dedupe', len(dd) <= 1, "more than one range is dropped from the middle of the stored bytes")
+                    need = fm.add(fm.add(used_mid, fm.add(tl, one)), cap, -1)       # bytes that must be freed (may be <= 0)
+
+                    def minimal_prefix(r):
+                        """r = 1 + index of the first NUL at or after index need - 1 (search evaluated by the code itself)"""
+                        for (at, base, off, ln, byte, rev) in poss:
+                            if base == 'H' and byte == 0 and not rev and eq(fm.add(off, one), need) and eq(r, fm.add(fm.add(off, fm.lin_atom(at)), one)):
+                                return True
+                        return False
+                    if not src:
+                        # everything was dropped
+                        if rule.feasible(w, [fm.le(one, used0)]):
+                            allneeded = le(used_mid, need) or any(
+                                base == 'H' and byte == 0 and not rev and eq(fm.add(off, one), need) and le(used_mid, fm.add(fm.add(off, fm.lin_atom(at)), one))
+                                for (at, base, off, ln, byte, rev) in poss) or le(used_mid, ZERO)
+                            # dropping "everything" when the only stored entry is the older copy of the line itself
+                            alldup = eq(used0, fm.add(tl, one))
+                            ob('all-dropped-only-if-needed', allneeded or alldup,
+                               "every stored entry is dropped although freeing fewer would do (bytes to free: %s)" % content.fmt(need))
+                    for g in pf:
+                        if len(dd) == 0 and eq(fm.add(g[2], g[1], -1), fm.add(tl, one)) and not minimal_prefix(g[2]):
+                            # the older copy was the oldest entry (removed range starts at 0)
+                            continue
+                        ob('evict-oldest-minimal', minimal_prefix(g[2]),
+                           "the dropped prefix [0, %s) does not end just after the first NUL at or beyond the %s bytes that must be freed"
+                           % (content.fmt(g[2]), content.fmt(need)))
+                    ob('one-prefix', len(pf) <= 1, "more than one prefix range is dropped")
+                try:
+                    content.cases(rule, w0, body)
+                except Undecided as e:
+                    ob('undecided', False, "the buffer content at an exit cannot be decided: %s" % e)
+        if n < 6 or nwrite < 3:
+            raise KeyError("History::push: only %d exits (%d writing) in the content analysis" % (n, nwrite))
+    finally:
+        absint.WIDEN_AT = old
+
+
+def check_recall_content(ctx, res):
+    """H7: what `next_older` / `next_newer` hand out, for every content of the history buffer (segment geography of
+    rules/content.py; the searches are the code's own, their predicates evaluated abstractly): a returned element is the
+    slice that starts at an entry start - offset 0 when the backward NUL search over everything before it found nothing,
+    otherwise one past the NUL that search found - and ends exactly at the next NUL; for `next_older` that is the entry
+    directly before the current position (the search is anchored at the current entry's start, or at `used` when
+    navigation starts), for `next_newer` the entry directly after the current one (start = one past the first NUL at or
+    after the cursor); the navigation cursor becomes the start of the returned element; when nothing is returned
+    `next_older` leaves the cursor where it was and `next_newer` resets it."""
+    from .. import absint, fm
+    from . import C03, content
+    from .content import ZERO
+    lib = lib_crate(ctx.crates('default'))
+    meths = {x.name: x for x in session.methods_of(lib, 'history::History')}
+    if not meths:
+        return
+    old = absint.WIDEN_AT
+    absint.WIDEN_AT = 16
+    try:
+        rule = content.ContentE3(lib)
+        rule.track_none = True
+        inv, keymap = C03.inventory(lib)
+        rule.keymap = keymap
+        one = fm.lin_const(1)
+        used0, hc0 = fm.lin_atom('used0'), fm.lin_atom('hc0')
+        n_some = 0
+        for name in ('next_older', 'next_newer'):
+            f = meths[name]
+            for label, selfv, facts in C03.history_entries(Interp([lib], rule)):
+                I = Interp([lib], rule, max_worlds=60000)
+                rule.ctx = name + ' ' + label
+                args, _ = C03.sym_args(rule, f, ('ref', (-1, 0, ())))
+                exits = I.run(f, args, facts, {(-1, 0): selfv})
+                ci_ = I.field_index('history::History', 'cursor')
+                ui_ = I.field_index('history::History', 'used')
+                had_cursor = label.endswith('Some')
+                for w, rv in exits:
+                    h = w.store[(-1, 0)]
+                    cur = h[3][ci_]
+
+                    def le(a, b):
+                        return a is not None and b is not None and rule.prove(w, fm.le(a, b))
+
+                    def eq(a, b):
+                        return a is not None and b is not None and (a == b or (le(a, b) and le(b, a)))
+
+                    def ob(clause, good, msg, _n=name, _l=label):
+                        res.oblige("H7|%s|%s|%s|%s" % (_n, _l, clause, msg[:40]), good, sample="recall %s: %s" % (_n, clause),
+                                   violation=None if good else dict(rule='C10.recall-entry', key="C10|recall-entry|%s|%s" % (_n, clause),
+                                                                    msg="history::History::%s [%s]: %s" % (_n, _l, msg)))
+                    ob('store-untouched', not content.effects_of(w) and eq(C03.L(h[3][ui_]), used0), "recall writes into the store")
+                    if not (rv[0] == 'adt' and rv[1] == OPTION):
+                        ob('definite', False, "the result is not a definite Option")
+                        continue
+                    if rv[2] == 0:
+                        if name == 'next_older':
+                            same = (cur == some(('sym', 'hc0'))) if had_cursor else (cur == none())
+                            ob('nothing-older-keeps-position', same, "returning nothing changes the navigation position")
+                        else:
+                            ob('nothing-newer-resets', cur == none(), "returning nothing does not reset the navigation position")
+                        continue
+                    n_some += 1
+                    el = rv[3][0]
+                    loc = rule.where(w, el) if el[0] == 'slc' else None
+                    ln = C03.L(el[2]) if el[0] == 'slc' else None
+                    if loc is None or loc[0] != 'H' or ln is None:
+                        ob('located', False, "the returned element is not a located slice of the history buffer")
+                        continue
+                    s_ = loc[1]
+                    poss = [m for m in content.markers(w, 'pos') if m[1] == 'H' and m[4] == 0]
+                    nones = [m for m in content.markers(w, 'posnone') if m[0] == 'H' and m[3] == 0]
+                    newc = C03.L(cur[3][0]) if (cur[0] == 'adt' and cur[2] == 1) else None
+                    ob('cursor-is-start', eq(newc, s_), "the navigation cursor is not set to the start of the returned element")
+                    if name == 'next_older':
+                        anchor = hc0 if had_cursor else used0         # start of the current entry / end of the stored bytes
+                        e = fm.add(anchor, one, -1)                   # the NUL that terminates the entry before it
+                        ob('ends-at-terminator', eq(fm.add(s_, ln), e), "the returned element does not end at the NUL before the current position")
+                        found = any(rev and eq(off, ZERO) and eq(sl, e) and eq(s_, fm.add(fm.add(off, sl), fm.lin_atom(at), -1))
+                                    for (at, b_, off, sl, byte, rev) in poss)
+                        first = eq(s_, ZERO) and any(rev and eq(off, ZERO) and eq(sl, e) for (b_, off, sl, byte, rev) in nones)
+                        ob('starts-at-entry-start', found or first,
+                           "the returned element does not start one past the nearest NUL before its end (or at 0 when there is none)")
+                    else:
+                        # the first NUL at or after the cursor ends the current entry; the next entry starts one past it
+                        nxt = [(at, off) for (at, b_, off, sl, byte, rev) in poss if not rev and eq(off, hc0) and eq(s_, fm.add(fm.add(off, fm.lin_atom(at)), one))]
+                        ob('starts-after-current', bool(nxt), "the returned element does not start one past the first NUL at or after the cursor")
+                        ends = any(not rev and eq(off, s_) and eq(ln, fm.lin_atom(at)) for (at, b_, off, sl, byte, rev) in poss)
+                        ob('ends-at-terminator', ends, "the returned element does not end at the first NUL at or after its start")
+        if n_some < 4:
+            raise KeyError("History recall: only %d element-returning exits analysed" % n_some)
     finally:
         absint.WIDEN_AT = old
